@@ -177,3 +177,249 @@ func G_QF1001_4(in In) (res string) {
 	res += fmt.Sprint(!(in.b0 || in.i0 != in.i1 && in.s0 > in.s1))
 	return res
 }
+
+// ---- round 2 (strengthening): operand positions, labels, repeated constants
+
+// QF1005 with exponent 1: the replacement is the first argument itself; when that is a
+// binary/unary expression and the call is an operand, it must stay one operand.
+func G_QF1005_1(in In) (res string) {
+	res += fmt.Sprint(in.f1 * math.Pow(in.f0+in.f1, 1))
+	return res
+}
+
+func G_QF1005_2(in In) (res string) {
+	res += fmt.Sprint(in.f0 / math.Pow(in.f0*in.f1, 1))
+	return res
+}
+
+func G_QF1005_3(in In) (res string) {
+	res += fmt.Sprint(-math.Pow(in.f0-in.f1, 1))
+	return res
+}
+
+func G_QF1005_4(in In) (res string) {
+	res += fmt.Sprint(math.Pow(in.f0+in.f1, 1) * in.f1)
+	return res
+}
+
+func G_QF1005_5(in In) (res string) {
+	res += fmt.Sprint(in.f0 - math.Pow(-in.f1, 1) - math.Pow(in.f0-in.f1, 1))
+	return res
+}
+
+// QF1006: a break that names an ENCLOSING loop must not be lifted into the condition of
+// the inner loop (only the inner loop would end); the label is used by a continue as well,
+// so the rewritten code still compiles.
+func G_QF1006_1(in In) (res string) {
+	rows := [][]int{in.xs, {4, -1, 5}, in.xs, {6, 7}}
+rows:
+	for _, row := range rows {
+		i := 0
+		for {
+			if i < len(row) && row[i] < 0 {
+				break rows
+			}
+			if i >= len(row) {
+				continue rows
+			}
+			res += fmt.Sprint(row[i])
+			i++
+		}
+	}
+	return res
+}
+
+// a break naming the loop's own label is equivalent to a plain break
+func G_QF1006_2(in In) (res string) {
+	n := 0
+own:
+	for {
+		if n >= len(in.xs) || in.xs[n] == 0 {
+			break own
+		}
+		res += fmt.Sprint(in.xs[n])
+		n++
+	}
+	return res
+}
+
+func G_QF1006_3(in In) (res string) {
+	n := 0
+	for {
+		if n >= len(in.xs) || tb(1, in.xs[n] == 0) {
+			break
+		}
+		res += fmt.Sprint(in.xs[n])
+		n++
+	}
+	return res
+}
+
+// QF1003: the same constant VALUE in two different branches (other spelling), three branches
+func G_QF1003_1(in In) (res string) {
+	i0 := in.i0
+	if i0 == 1 {
+		res += "a"
+	} else if i0 == 4 || i0 == 3 {
+		res += "b"
+	} else if i0 == 2 || i0 == 0x1 {
+		res += "c"
+	}
+	return res
+}
+
+func G_QF1003_2(in In) (res string) {
+	i0 := in.i0
+	if i0 == 2 {
+		res += "a"
+	} else if i0 == 3 {
+		res += "b"
+	} else if i0 == 1+1 {
+		res += "c"
+	} else {
+		res += "e"
+	}
+	return res
+}
+
+// QF1003: a break in the final else leaves the enclosing loop; inside a switch it would
+// only leave the switch.
+func R_QF1003_2(in In) (res string) {
+	for n := 0; n < 4; n++ {
+		if in.i0+n == 1 {
+			res += "a"
+		} else if in.i0+n == 2 {
+			res += "b"
+		} else {
+			break
+		}
+		res += "."
+	}
+	return res
+}
+
+func G_QF1003_3(in In) (res string) {
+	for n := 0; n < 4; n++ {
+		if in.i0+n == 1 {
+			res += "a"
+		} else if in.i0+n == 2 {
+			res += "b"
+		} else {
+			res += "c"
+			continue
+		}
+		res += "."
+	}
+	return res
+}
+
+// S1034: a comma-ok assertion inside the clause cannot become "v, ok := x"
+func R_S1034_1(in In) (res string) {
+	var x any = in.i0
+	if in.b0 {
+		x = in.s0
+	}
+	switch x.(type) {
+	case int:
+		v, ok := x.(int)
+		res += fmt.Sprint(v, ok)
+	case string:
+		res += x.(string)
+	}
+	return res
+}
+
+func G_S1034_1(in In) (res string) {
+	var x any = in.i0
+	if in.b0 {
+		x = in.s0
+	}
+	switch x.(type) {
+	case int:
+		res += fmt.Sprint(x.(int) + 1)
+	case string:
+		res += x.(string)
+	}
+	return res
+}
+
+// S1016: the address of a parenthesised literal: a conversion is not addressable
+func R_S1016_1(in In) (res string) {
+	v := Inner{in.i0, in.i1}
+	w := &(Inner2{A: v.A, B: v.B})
+	res += fmt.Sprint(*w)
+	return res
+}
+
+// S1025: the Sprintf call is the base of a slice / index expression and its argument is
+// not a primary expression
+func R_S1025_1(in In) (res string) {
+	res += fmt.Sprintf("%s", in.s0+in.s1)[1:]
+	return res
+}
+
+func R_S1025_2(in In) (res string) {
+	p := &in.s0
+	res += fmt.Sprint(fmt.Sprintf("%s", *p)[0])
+	return res
+}
+
+func R_S1025_3(in In) (res string) {
+	ch := make(chan string, 1)
+	ch <- in.s1
+	res += fmt.Sprintf("%s", <-ch)[:1]
+	return res
+}
+
+func G_S1034_2(in In) (res string) {
+	var x any = in.i0
+	if in.b0 {
+		x = in.s0
+	}
+	switch x.(type) {
+	case int:
+		var v, ok = x.(int)
+		res += fmt.Sprint(v, ok)
+	case string:
+		res += x.(string)
+	}
+	return res
+}
+
+func G_S1034_3(in In) (res string) {
+	var x any = in.i0
+	if in.b0 {
+		x = in.s0
+	}
+	switch x.(type) {
+	case int:
+		res += fmt.Sprint(x.(int))
+	case string:
+		if _, ok := (x.(string)); ok {
+			res += "s"
+		}
+	}
+	return res
+}
+
+// S1005: every deletion range
+func G_S1005_1(in In) (res string) {
+	for _ = range in.xs {
+		res += "x"
+	}
+	return res
+}
+
+func G_S1005_2(in In) (res string) {
+	for _, _ = range in.xs {
+		res += "y"
+	}
+	return res
+}
+
+func G_S1005_3(in In) (res string) {
+	for i, _ := range in.xs {
+		res += fmt.Sprint(i)
+	}
+	return res
+}
